@@ -161,7 +161,7 @@ impl Prop for C03 {
             stages: vec![Stage {
                 name: "values".into(),
                 len: n,
-                chunk: (n / 64).max(500),
+                chunk: (n / 20).max(500),
                 timeout: Duration::from_secs(900),
                 what: "operator / function applications over the value alphabet".into(),
             }],
